@@ -262,7 +262,7 @@ def replay_history(rng, tier, rtcp=False, n_ssrc=None, steps=None, common_roc=No
     L = []
     if wildcard:
         ps = default_policy(rng, 0, ssrc_type=SSRC_ANY_OUT, window=ws)
-        pr = default_policy(rng, 0, ssrc_type=SSRC_ANY_IN, window=ws, keys=ps.keys)
+        pr = default_policy(rng, 0, ssrc_type=SSRC_ANY_IN, window=ws, keys=ps.keys, rtp=ps.rtp, rtcp=ps.rtcp)
         L += [ps.line(1), pr.line(2), "create 1 1", "create 2 2"]
     else:
         pols = [default_policy(rng, s, window=ws) for s in ssrcs]
@@ -319,7 +319,7 @@ def replay_history(rng, tier, rtcp=False, n_ssrc=None, steps=None, common_roc=No
                 line, idx = rng.choice(pool[s][-8:] if rng.random() < 0.7 else pool[s])
                 if rng.random() < damaged:
                     # a damaged copy arrives first (rejected; must leave the stream's index state alone)
-                    L.append(pkt_op("unprotect", 2, f"@{line:x}~{rng.randrange(96, 8 * 28):x}", cap=100)); L.append("# X")
+                    L.append(pkt_op("unprotect", 2, f"@{line:x}~{rng.randrange(96, 8 * 22):x}", cap=100)); L.append("# X")
                 L.append(pkt_op("unprotect", 2, f"@{line:x}", cap=100)); L.append(f"# D {s:x} {idx:x} {line:x}")
                 delivered.add(line)
                 if rng.random() < 0.2:
